@@ -36,10 +36,12 @@ func main() {
 	klog.SetOutput(io.Discard) // the witness logs "Rollback(): ... already been committed" on every success
 	r := lib.Rand()
 	w := lib.NewWriter(header, 14)
+	defer w.Guard()
 	h := newHarness(r, w)
 	defer os.RemoveAll(h.dbdir)
 
 	h.findingReplays()
+	h.forgedProofCases(lib.Count(3, 60))
 	nSeq := lib.Count(140, 1500)
 	for i := 0; i < nSeq && atomic.LoadInt32(&hangs) < 3; i++ {
 		h.sequentialCase(i)
